@@ -311,8 +311,6 @@ func (s *KevoServiceServer) TxGet(ctx context.Context, req *pb.TxGetRequest) (*p
 	}
 
 	if len(req.Key) == 0 || len(req.Key) > s.maxKeySize {
-		// For invalid inputs, consider automatically releasing the transaction
-		s.txRegistry.Remove(req.TransactionId)
 		return nil, fmt.Errorf("invalid key size")
 	}
 
